@@ -10,7 +10,7 @@ from collections import Counter
 import numpy as np
 
 from vmon import gen
-from vmon.core import TAU_LP, TAU_SOCP_ABS, TAU_SOCP_REL, case_hash
+from vmon.core import TAU_LP, TAU_SCS_ABS, TAU_SCS_REL, TAU_SOCP_ABS, TAU_SOCP_REL, case_hash
 from vmon.oracles import geometry as G
 
 SOLVER_STATUS: Counter = Counter()
@@ -62,12 +62,17 @@ def crash_mechanism(exc: BaseException) -> str:
     return f"crash:{type(exc).__name__}:{fn}"
 
 
-def band(kind, mag):
+def band(kind, mag, fallback=False):
+    """fallback=True: the decision was taken by the SCS fallback after a natural SolverError of the default solver"""
     if kind == "rect-exact":
         return 1e-12 * (1 + mag)
     if kind == "rect":
-        return TAU_LP * (1 + mag)
-    return TAU_SOCP_ABS + TAU_SOCP_REL * mag
+        t = TAU_LP * (1 + mag)
+    else:
+        t = TAU_SOCP_ABS + TAU_SOCP_REL * mag
+    if fallback:
+        t = max(t, TAU_SCS_ABS + TAU_SCS_REL * mag)
+    return t
 
 
 def judge(mon, prop, pred_name, answer, lo, hi, tau, case, h, cls, demand_true_only=False,
